@@ -418,7 +418,7 @@ func runC14(ctx *Ctx) error {
 		}
 		switch {
 		case i%10 == 4:
-			sc.fault = []string{"refuse-dial", "three-crcfaults", "malformed", "garbage"}[(i/10)%4]
+			sc.fault = []string{"refuse-dial", "three-crcfaults", "malformed", "garbage", "close-under-traffic"}[(i/10)%5]
 			if sc.fault == "refuse-dial" {
 				sc.accept = false
 			}
@@ -552,7 +552,8 @@ func (sc c14Scenario) run(r Rng) (fails []Failure, extra [][3]string) {
 	}
 	sim := &ardSim{tcp: sc.tcp, done: make(chan struct{}), mycall: "NOCALL", refuseDial: sc.fault == "refuse-dial"}
 	var hostLink io.ReadWriteCloser
-	var closers []io.Closer
+	var closers []io.Closer     // the TNC's ends of the links (closing them is "the TNC went away")
+	var hostClosers []io.Closer // the host's ends: closed only after the TNC's ends, for clean-up
 	var tncAddr string
 	if sc.tcp {
 		la, lb, addr := ardListenPair()
@@ -580,7 +581,8 @@ func (sc c14Scenario) run(r Rng) (fails []Failure, extra [][3]string) {
 		a, b := memPipe(0)
 		a.maxSeg = sc.maxSeg
 		hostLink, sim.ctrl = rwc{a}, b
-		closers = append(closers, a, b)
+		closers = append(closers, b)
+		hostClosers = append(hostClosers, a)
 		go sim.serveSerial()
 	}
 	ptt := &pttLog{}
@@ -665,6 +667,29 @@ func (sc c14Scenario) run(r Rng) (fails []Failure, extra [][3]string) {
 		sim.mark = true
 		sim.wmu.Unlock()
 		barrier := func() { tnc.Version() } // a control round trip: everything sent before it on the control stream has been dispatched
+
+		// ---- the application closes the TNC while it keeps sending unsolicited lines (ARDOPc sends
+		// INPUTPEAKS, BUSY, PTT... at any time): no crash
+		if sc.fault == "close-under-traffic" {
+			stop := make(chan struct{})
+			go func() {
+				for k := 0; ; k++ {
+					select {
+					case <-stop:
+						return
+					default:
+					}
+					sim.say([]string{"INPUTPEAKS 1 2", "BUSY TRUE", "BUSY FALSE", "PTT TRUE", "PTT FALSE"}[k%5])
+					time.Sleep(30 * time.Microsecond)
+				}
+			}()
+			time.Sleep(time.Duration(1+r.Intn(8)) * time.Millisecond)
+			conn.Close()
+			tnc.Close()
+			time.Sleep(3 * time.Millisecond)
+			close(stop)
+			return
+		}
 
 		// ---- malformed input: errors, never a crash
 		if sc.fault == "malformed" || sc.fault == "garbage" {
@@ -903,6 +928,10 @@ func (sc c14Scenario) run(r Rng) (fails []Failure, extra [][3]string) {
 	}
 	done, p := runWithTimeout(15*time.Second, body)
 	for _, c := range closers {
+		c.Close()
+	}
+	time.Sleep(2 * time.Millisecond) // the control loop sees end-of-stream and shuts the TNC down
+	for _, c := range hostClosers {
 		c.Close()
 	}
 	if p != nil {
